@@ -694,7 +694,7 @@ def build(repo, contracts_dir, out_dir, vacuity=False, only=None):
             groups[-1][1].append(p)
         else:
             groups.append((hdr, [p]))
-    unused = set(specs) - set(cfg["functions"])
+    unused = set(specs) - set(cfg["functions"]) - set(k + "#body" for k in cfg.get("body_copies", {}))
     if unused:
         raise ExtractError("specs for functions not listed in units.json: %s" % sorted(unused))
 
@@ -709,7 +709,8 @@ def build(repo, contracts_dir, out_dir, vacuity=False, only=None):
         extra = cfg.get("trait_extra", {}).get(hdr2.split()[1] if hdr2.startswith("trait") else "", None)
         if extra:
             W.emit(open(os.path.join(contracts_dir, extra)).read() + "\n")
-        for p in paths:
+        def emit_fn(p, spec_key, rename):
+            fid = spec_key
             toks, item, parent = S.fns[p]
             raw = strip_attrs(toks, item)
             if parent is None:
@@ -733,7 +734,7 @@ def build(repo, contracts_dir, out_dir, vacuity=False, only=None):
                 txt = text(tt, 0, a0) + rs["with"] + text(tt, a0 + a1, len(tt))
                 flog.append({"rule": rs["rule"], "region_dropped_sha256": hashlib.sha256(dropped.encode()).hexdigest(),
                              "region_lines": dropped.count("\n") + 1, "replaced_with": rs["with"].strip()})
-            sp0 = specs.get(p)
+            sp0 = specs.get(spec_key)
             keep_for = set(c.arg for c in sp0.of("loop") if c.name) if sp0 else set()
             txt = rewrite_item_text(txt, S, flog, sites, outline=cfg.get("outline_macros"), keep_for=keep_for)
             txt = txt.replace("engine::", "") if toks is S.ltoks else txt
@@ -742,40 +743,52 @@ def build(repo, contracts_dir, out_dir, vacuity=False, only=None):
                     raise ExtractError("%s: text_subst source not found: %r" % (p, a))
                 txt = txt.replace(a, b)
                 flog.append({"rule": "R7", "subst": [a, b]})
-            sp = specs.get(p) or FnSpec(p, "-")
+            sp = specs.get(spec_key) or FnSpec(spec_key, "-")
             for a in sp.attrs:
                 W.emit("    " + a + "\n")
-            if p in cfg.get("external_body", {}):
+            if rename is None and p in cfg.get("external_body", {}):
                 W.emit("    #[verifier::external_body] // ASSUMED: %s\n" % cfg["external_body"][p])
-            woven, obs = weave_function(txt, sp, p, W, {"vacuity": vacuity, "log": flog}, None)
+            if rename is not None:
+                txt, nsub = re.subn(r"\bfn\s+%s\b" % re.escape(p.split("::")[-1]), "fn " + rename, txt, count=1)
+                if nsub != 1:
+                    raise ExtractError("%s: cannot rename for body copy" % p)
+                flog.append({"rule": "R8b-copy", "renamed_to": rename})
+            woven, obs = weave_function(txt, sp, fid, W, {"vacuity": vacuity, "log": flog}, None)
             base = W.line
-            sobs = site_obligations(p, woven, contracted_names)
+            sobs = site_obligations(fid, woven, contracted_names)
             ghost_ranges = [(base + a, base + b) for (a, b) in weave_function.last_ghost]
             seen_ids = {}
             for o in obs + sobs:
                 o["line_start"] = base + o.pop("rel_line_start")
                 o["line_end"] = base + o.pop("rel_line_end")
-                oid = "%s/%s%s:%s" % (p, o["kind"], ("#%d" % o["loop"]) if "loop" in o else "", o["name"])
+                oid = "%s/%s%s:%s" % (fid, o["kind"], ("#%d" % o["loop"]) if "loop" in o else "", o["name"])
                 seen_ids[oid] = seen_ids.get(oid, 0) + 1
                 o["id"] = oid if seen_ids[oid] == 1 else "%s~%d" % (oid, seen_ids[oid])
                 W.obligations.append(o)
             start = W.line
             W.emit(woven + "\n\n")
-            fn_records.append({"path": p, "src_file": "src/lib.rs" if toks is S.ltoks else "src/engine.rs",
+            fn_records.append({"path": fid, "verus_name": rename, "src_file": "src/lib.rs" if toks is S.ltoks else "src/engine.rs",
                                "src_line_start": src_line, "src_line_end": src_end,
                                "woven_line_start": start, "woven_line_end": W.line - 1,
                                "rules_applied": flog, "sites": sites, "ghost_ranges": ghost_ranges,
-                               "has_contract": p in specs})
-            W.obligations.append({"fn": p, "kind": "safety", "name": "", "tags": ["C06"],
-                                  "id": "%s/safety" % p,
+                               "has_contract": spec_key in specs})
+            W.obligations.append({"fn": fid, "kind": "safety", "name": "", "tags": ["C06"],
+                                  "id": "%s/safety" % fid,
                                   "text": "executable text: bounds, overflow, termination, preconditions of std "
                                           "functions (a failure here is a possible panic)",
                                   "line_start": start, "line_end": W.line - 1, "fallback": True})
-            W.obligations.append({"fn": p, "kind": "hints", "name": "", "tags": [],
-                                  "id": "%s/hints" % p,
+            W.obligations.append({"fn": fid, "kind": "hints", "name": "", "tags": [],
+                                  "id": "%s/hints" % fid,
                                   "text": "untagged woven proof hints of this function (a failure is attributed to every "
                                           "property the function's clauses are tagged with)",
                                   "line_start": start, "line_end": W.line - 1, "fallback": True, "union_tags": True})
+
+        for p in paths:
+            emit_fn(p, p, None)
+            if p in cfg.get("body_copies", {}):
+                # the same source function a second time, under another name, with its body verified against
+                # the contract `<path>#body` (the first copy is what callers see)
+                emit_fn(p, p + "#body", cfg["body_copies"][p])
         W.emit("\n" if free else "}\n")
     # global proof items (lemmas) from `=== spec` sections
     for g in gl:
